@@ -400,7 +400,7 @@ def deser_units():
         "mc_rt": McUnit(SUB, "Deser", name="Deser:mc:roundtrip"),
         "mc_tot": McUnit(SUB, "Deser", cfgkind="total", name="Deser:mc:total-all-strings"),
         "mc_neg": McUnit(SUB, "Deser", cfgkind="allocfirst", name="Deser:mc:alloc-first-control", expect="AllocBounded"),
-        "table": TableUnit("Deser:table", "deser-table", deser_gen, expect_rows=lambda ctx: 56 * 5461 + 3 * 995 + 300),
+        "table": TableUnit("Deser:table", "deser-table", deser_gen, expect_rows=lambda ctx: 56 * 5461 + 3 * 995 + 3 * 27 + 300),
         "records": RecordsUnit("Deser:records", "deser-records", "DeserTrace", deser_classify, n=(1500, 20000),
                                consts=DESER_CONSTS % (0, "{0}")),
     }
